@@ -53,6 +53,9 @@ func (a *Auth) Unpack(r io.Reader) error {
 		return codes.ErrProtocol
 	}
 	a.Properties = &Properties{}
+	if bufr.Len() == 0 { // Reason Code and Property Length can only be omitted together (Remaining Length 0)
+		return codes.ErrMalformed
+	}
 	if err := a.Properties.Unpack(bufr, AUTH); err != nil {
 		return err
 	}
